@@ -179,10 +179,16 @@ def c04(rec):
         except Exception as e:  # noqa
             out.append(_verdict("C04", "declined_error", "lazy:" + type(e).__name__))
             continue
-        bad = _decl_check(r, exp, "C04", "lazy")
-        if bad:
-            out.append(bad)
-            continue
+        # "exactly these inputs" is stated for a lazily BUILT substitution (a Subs node).  Some
+        # terms perform the substitution even under `lazy` (Stack / Tensor / Number pick a part or
+        # index data in their eager_subs): that is an evaluated substitution, whose inputs may omit
+        # what the value no longer depends on (_eval_check enforces subset + dependence).
+        from funsor.terms import Subs as _Subs
+        if isinstance(r, _Subs):
+            bad = _decl_check(r, exp, "C04", "lazy")
+            if bad:
+                out.append(bad)
+                continue
         out.append(_eval_check(r, exp, "C04", "lazy"))
     return out
 
